@@ -335,6 +335,14 @@ def _sources_equivalent(source1: str, source2: ast.AST) -> bool:
 
 
 def minimize_whitespace_line_differences(source: str, new_source: str) -> Tuple[str, str, str]:
+    minimized_source, found, replaced = _restore_whitespace_lines(source, new_source)
+    if minimized_source == new_source or core.keeps_syntax_tree(new_source, minimized_source):
+        return minimized_source, found, replaced
+
+    return new_source, found, replaced  # A whitespace-only line may be a line of a string literal
+
+
+def _restore_whitespace_lines(source: str, new_source: str) -> Tuple[str, str, str]:
     old_lines = source.splitlines(keepends=True)
     new_lines = new_source.splitlines(keepends=True)
 
